@@ -1071,6 +1071,7 @@ func (c *Conn) readTopicMetadatav1(brokers map[int32]Broker, topicMetadata []top
 				Isr:             makeBrokers(brokers, p.Isr...),
 				ID:              int(p.PartitionID),
 				OfflineReplicas: []Broker{},
+				Error:           makeError(p.PartitionErrorCode, ""),
 			})
 		}
 	}
@@ -1100,6 +1101,7 @@ func (c *Conn) readTopicMetadatav6(brokers map[int32]Broker, topicMetadata []top
 				Isr:             makeBrokers(brokers, p.Isr...),
 				ID:              int(p.PartitionID),
 				OfflineReplicas: makeBrokers(brokers, p.OfflineReplicas...),
+				Error:           makeError(p.PartitionErrorCode, ""),
 			})
 		}
 	}
